@@ -121,6 +121,28 @@ def toTree (m : Msg) : Node :=
 
 def write (m : Msg) : Bytes := writeDoc (toTree m)
 
+/-! ### `RequestResourceLimit::apply_to` -/
+
+def Limit.isEmpty (l : Limit) : Bool := l.asn.isNone && l.v4.isNone && l.v6.isNone
+
+/-- one resource type: the set's own blocks when the limit says nothing, the limit's blocks when
+the set holds all of them, failure otherwise -/
+def pick (limit : Option (List Blk)) (have_ : List Blk) : Option (List Blk) :=
+  match limit with
+  | none => some have_
+  | some want => if isEncompassed want have_ then some want else none
+
+/-- `apply_to`: `none` is `Err(Error::limit(..))` -/
+def applyTo (l : Limit) (s : ResSet) : Option ResSet :=
+  if l.isEmpty then some s
+  else match pick l.asn s.asn with
+    | none => none
+    | some a => match pick l.v4 s.v4 with
+      | none => none
+      | some b => match pick l.v6 s.v6 with
+        | none => none
+        | some c => some ⟨a, b, c⟩
+
 /-! ### reading a tree back (reference reader for the documents written above) -/
 
 def readAs (v : Bytes) : Option (List Blk) := ResText.parseAs v
